@@ -276,9 +276,50 @@ def test_spinning():
     return f'polling loop ended after {a.result} polls once the sleeper woke; endless polling -> {b.verdict}'
 
 
+def test_alloc_is_legal():
+    """vf/alloc.py keeps the one promise id() makes, for generated keep/drop histories and recycle bits"""
+    from hypothesis import given, seed, settings
+    from hypothesis import strategies as st
+
+    from vf.alloc import Alloc
+
+    class Obj:
+        pass
+
+    stats = {'cases': 0, 'recycled': 0}
+
+    @seed(1)
+    @settings(max_examples=400, deadline=None, database=None)
+    @given(st.lists(st.integers(0, 1), max_size=8), st.lists(st.tuples(st.sampled_from(['new', 'drop', 'again']), st.integers(0, 7)), max_size=60))
+    def prop(bits, ops):
+        a = Alloc(bits)
+        live = []  # (obj, id)
+        ever = set()
+        for op, k in ops:
+            if op == 'new':
+                o = Obj()
+                i = a(o)
+                assert all(i != j for _, j in live), 'two live objects share an id'
+                live.append((o, i))
+                ever.add(i)
+            elif live and op == 'drop':
+                live.pop(k % len(live))
+            elif live:
+                o, i = live[k % len(live)]
+                assert a(o) == i, 'id of a live object changed'
+        stats['cases'] += 1
+        stats['recycled'] += a.recycled
+        if not any(bits):
+            assert a.recycled == 0
+
+    prop()
+    assert stats['recycled'] > 100, stats
+    return f"{stats['cases']} histories, {stats['recycled']} recycled ids, never two live objects with one id, ids stable"
+
+
 def main():
     ok = True
-    for t in (test_spinning, test_wasted_notify, test_queue_fifo_exhaustive, test_lock_inversion, test_lost_update, test_virtual_time_exact, test_replay_determinism):
+    for t in (test_alloc_is_legal, test_spinning, test_wasted_notify, test_queue_fifo_exhaustive, test_lock_inversion, test_lost_update, test_virtual_time_exact, test_replay_determinism):
         try:
             print(f'selftest {t.__name__}: ok - {t()}')
         except BaseException as e:
